@@ -1,14 +1,14 @@
 #!/bin/bash
 # tools/seed2.sh <Cxx> [extra props...] — processes round-2 seeds of a property from /tmp/wt2/<Cxx>/seeded_out/{1,2}
-P="$1"; shift
+SROOT="${SEEDROOT:-/tmp/wt2}"; OFF="${SEEDOFF:-2}"; P="$1"; shift
 declare -A DIRS=( [roundrobin]=roundrobin [stickycookie]=roundrobin/stickycookie [buffer]=buffer [cbreaker]=cbreaker [connlimit]=connlimit [forward]=forward [memmetrics]=memmetrics [ratelimit]=ratelimit [utils]=utils [trace]=trace [stream]=stream [collections]=internal/holsterv4/collections [clock]=internal/holsterv4/clock )
 for k in 1 2; do
-  d=/tmp/wt2/$P/seeded_out/$k
-  [ -f $d/patch.diff ] || { echo "$P-$((k+2)): no patch"; continue; }
+  d=$SROOT/$P/seeded_out/$k
+  [ -f $d/patch.diff ] || { echo "$P-$((k+OFF)): no patch"; continue; }
   demo=$(ls $d | grep -v -e patch.diff -e notes.md | head -1)
   pkg=$(grep -m1 '^package ' $d/$demo | awk '{print $2}' | sed 's/_test$//')
   dir=${DIRS[$pkg]:-}
-  if [ -z "$dir" ]; then echo "$P-$((k+2)): unknown package $pkg"; continue; fi
-  echo "== $P-$((k+2)) ($dir)"
-  /verif/tools/seedtest.sh $P-$((k+2)) $d $dir/zz_demo2_${k}_test.go $P "$@" 2>&1 | grep -E "^(verify|check)"
+  if [ -z "$dir" ]; then echo "$P-$((k+OFF)): unknown package $pkg"; continue; fi
+  echo "== $P-$((k+OFF)) ($dir)"
+  /verif/tools/seedtest.sh $P-$((k+OFF)) $d $dir/zz_demo2_${k}_test.go $P "$@" 2>&1 | grep -E "^(verify|check)"
 done
